@@ -155,14 +155,15 @@ type c11Handle struct {
 }
 
 type c11Run_ struct {
-	u      *vfUnit
-	e      *c11Env
-	rs     *vfRawSession
-	hs     []*c11Handle
-	seen   map[string]bool
-	id     uint32
-	label  string
-	broken bool
+	u          *vfUnit
+	e          *c11Env
+	rs         *vfRawSession
+	hs         []*c11Handle
+	seen       map[string]bool
+	id         uint32
+	label      string
+	broken     bool
+	closeFails bool
 }
 
 func (x *c11Run_) req(p vfPkt) (vfPkt, bool) {
@@ -236,7 +237,7 @@ func (x *c11Run_) step(st c11Step) {
 			return
 		}
 		h.open = false
-		if !(r.Type == rfStatus && r.Code == rfOK) {
+		if !(r.Type == rfStatus && r.Code == rfOK) && !(x.closeFails && r.Type == rfStatus) {
 			u.Violation("close-failed:"+e.kind.String(), fmt.Sprintf("%s: CLOSE of live handle %q answered %s", x.label, h.s, r), nil)
 		}
 		if e.kind == vfRS {
@@ -347,10 +348,16 @@ func c11Run(u *vfUnit) {
 	}
 	for ei, en := range ends {
 		e.reset()
+		closeFails := false
 		base := vfGoBaseline()
 		cfg := vfSrvCfg{Kind: e.kind, Alloc: e.alloc}
 		if e.kind == vfRS {
 			cfg.H = e.store.Handlers(vfHandlerOpt{OpenFile: ei%2 == 0, CmdAll: true, ListAll: true})
+			if ei%3 == 1 {
+				// handler objects whose Close reports an error: the handle must die all the same
+				e.store.CloseErr = func(p string) error { return fmt.Errorf("close of %s failed", p) }
+				closeFails = true
+			}
 		}
 		rs, err := vfRawConnect(cfg, vfPipeOpts{}, true)
 		if err != nil {
@@ -358,7 +365,11 @@ func c11Run(u *vfUnit) {
 			return
 		}
 		label := fmt.Sprintf("%v/alloc=%v/end=%s@%d/%d", e.kind, e.alloc, en.how, en.k, len(script))
-		x := &c11Run_{u: u, e: e, rs: rs, seen: map[string]bool{}, label: label, id: 10}
+		if closeFails {
+			label += "/close-fails"
+			u.Count("sessions_with_failing_handler_close", 1)
+		}
+		x := &c11Run_{u: u, e: e, rs: rs, seen: map[string]bool{}, label: label, id: 10, closeFails: closeFails}
 		for i := 0; i < en.k && i < len(script) && !x.broken; i++ {
 			x.step(script[i])
 		}
@@ -386,7 +397,7 @@ func c11Run(u *vfUnit) {
 		case "clean-close-all":
 			for _, h := range x.hs {
 				if h.open && !x.broken {
-					if rr, ok := x.req(vfPkt{Type: rfClose, Handle: h.s}); ok && !(rr.Type == rfStatus && rr.Code == rfOK) {
+					if rr, ok := x.req(vfPkt{Type: rfClose, Handle: h.s}); ok && !(rr.Type == rfStatus && rr.Code == rfOK) && !closeFails {
 						u.Violation("close-failed:"+e.kind.String(), fmt.Sprintf("%s: final CLOSE of %q answered %s", label, h.s, rr), nil)
 					}
 					h.open = false
